@@ -107,17 +107,134 @@ theorem ret_rcRemoveKey (m : M6o) (a : ASt) (f : Nat → Bool) (k : Nat) (res : 
 /-- weakening the knowledge of keys is always sound when their state did not change or was dismissed -/
 theorem knowK_weaken (a a' : ASt) (x : OK) (k : Nat) (h : KnowK a x k)
     (hst : a'.st k = a.st k ∨ ∃ fl, a'.st k = disSt a fl k) :
-    KnowK a' (match x with
-      | .absent => .absent
-      | _ => .any) k := by
+    KnowK a' x.weaken k := by
   cases x with
   | absent =>
-    simp only [KnowK] at h ⊢
+    simp only [KnowK, OK.weaken] at h ⊢
     rcases hst with h1 | ⟨fl, h1⟩
     · rw [h1]; exact h
     · rw [h1]; simp [disSt, h]
   | present => trivial
   | unknown e => trivial
   | any => trivial
+
+theorem rel_cases (a : ASt) (f : Nat → Bool) (r : Nat) :
+    specRelease a f r = a ∨ ∃ k0, a.live[r]? = some (some k0) ∧
+      ((specRelease a f r = { a with live := a.live.set r none } ∧
+          0 < liveCount { a with live := a.live.set r none } k0) ∨
+       (specRelease a f r = dismiss { a with live := a.live.set r none } (f k0) k0 ∧
+          liveCount { a with live := a.live.set r none } k0 = 0)) := by
+  unfold specRelease
+  split
+  · rename_i k0 hk0
+    right
+    refine ⟨k0, hk0, ?_⟩
+    simp only []
+    split
+    · rename_i hz; right; exact ⟨rfl, by simpa using hz⟩
+    · rename_i hz
+      left
+      refine ⟨rfl, ?_⟩
+      simp at hz; omega
+  · left; rfl
+
+theorem ret_release (m : M6o) (a : ASt) (f : Nat → Bool) (r : Nat) (res : Res) (hK : Know m a)
+    (hclr : Cleared m (.release r))
+    (hout : SpecOut a (specStep a f (.release r)) (.release r) res) :
+    ∃ m', m.ret (.release r) res = some m' ∧ Know m' (specStep a f (.release r)) ∧ m'.pending = m.pending := by
+  simp only [SpecOut] at hout
+  subst hout
+  have hclr' : ∀ (k : Nat), m.liveDef[r]? ≠ some (some k) := hclr
+  have hsp : specStep a f (.release r) = specRelease a f r := rfl
+  rw [hsp]
+  -- what `Release` does to the abstract state
+  have hfields : (specRelease a f r).delay = a.delay ∧ (specRelease a f r).epoch = a.epoch ∧
+      (specRelease a f r).hasCtx = a.hasCtx ∧ (specRelease a f r).nctor = a.nctor ∧
+      ((specRelease a f r).live = a.live ∨ (specRelease a f r).live = a.live.set r none) := by
+    rcases rel_cases a f r with h | ⟨k0, _, ⟨h, _⟩ | ⟨h, _⟩⟩ <;> rw [h]
+    · exact ⟨rfl, rfl, rfl, rfl, Or.inl rfl⟩
+    · exact ⟨rfl, rfl, rfl, rfl, Or.inr rfl⟩
+    · exact ⟨rfl, rfl, rfl, rfl, Or.inr rfl⟩
+  have hstc : ∀ k', (specRelease a f r).st k' = a.st k' ∨ ∃ fl, (specRelease a f r).st k' = disSt a fl k' := by
+    intro k'
+    rcases rel_cases a f r with h | ⟨k0, _, ⟨h, _⟩ | ⟨h, _⟩⟩ <;> rw [h]
+    · left; rfl
+    · left; rfl
+    · simp only [dismiss, upd]
+      split
+      · rename_i hk; subst hk; right; exact ⟨f k', rfl⟩
+      · left; rfl
+  have hlive : ∀ (r' k' : Nat), m.liveDef[r']? = some (some k') → (specRelease a f r).live[r']? = some (some k') := by
+    intro r' k' hr'
+    have hne : r' ≠ r := fun e => hclr' k' (e ▸ hr')
+    have hl := hK.live r' k' hr'
+    rcases hfields.2.2.2.2 with h | h <;> rw [h]
+    · exact hl
+    · rw [List.getElem?_set_ne (fun e => hne e.symm)]; exact hl
+  have hrkey : ∀ (r' k' : Nat), m.refKey[r']? = some (some k') → r' < (specRelease a f r).live.length ∧
+      ∀ k'', (specRelease a f r).live[r']? = some (some k'') → k'' = k' := by
+    intro r' k' hr'
+    obtain ⟨hlt, huniq⟩ := hK.rkey r' k' hr'
+    rcases hfields.2.2.2.2 with h | h <;> rw [h]
+    · exact ⟨hlt, huniq⟩
+    · refine ⟨by simpa using hlt, ?_⟩
+      intro k'' hk''
+      by_cases hrr : r = r'
+      · subst hrr; simp [hlt] at hk''
+      · rw [List.getElem?_set_ne hrr] at hk''; exact huniq k'' hk''
+  have hcore : ∀ st', (∀ k', KnowK (specRelease a f r) (st' k') k') →
+      Know { m with st := st' } (specRelease a f r) := by
+    intro st' hst'
+    exact ⟨hK.delay.trans hfields.1.symm, hK.epoch.trans hfields.2.1.symm,
+      fun c h => by rw [hfields.2.2.1]; exact hK.ctx c h, hst',
+      fun k n h => by rw [hfields.2.2.2.1]; exact hK.cnt k n h, hlive, hrkey⟩
+  simp only [M6o.ret]
+  split
+  · rename_i k hrk
+    split
+    · -- another certainly unreleased reference keeps the key: nothing changes
+      rename_i hoth
+      refine ⟨m, rfl, ?_, rfl⟩
+      have hsame : ∀ k', (specRelease a f r).st k' = a.st k' := by
+        intro k'
+        rcases rel_cases a f r with h | ⟨k0, hk0, ⟨h, _⟩ | ⟨h, hz⟩⟩
+        · rw [h]
+        · rw [h]
+        · -- impossible: the other reference is still live
+          exfalso
+          have hkk : k0 = k := (hK.rkey r k hrk).2 k0 hk0
+          subst hkk
+          simp only [M6o.otherRef, List.any_eq_true, List.mem_range, Bool.and_eq_true, bne_iff_ne, beq_iff_eq] at hoth
+          obtain ⟨r', _, hne, hr'⟩ := hoth
+          have hl := hK.live r' k0 hr'
+          have hpos : 0 < liveCount { a with live := a.live.set r none } k0 := by
+            unfold liveCount
+            rw [List.countP_pos_iff]
+            refine ⟨some k0, ?_, by simp⟩
+            apply List.mem_of_getElem? (i := r')
+            rw [List.getElem?_set_ne (fun e => hne e.symm)]; exact hl
+          omega
+      have := hcore m.st (fun k' => knowK_other a _ _ k' (hsame k') (hK.st k'))
+      exact this
+    · refine ⟨_, rfl, ?_, rfl⟩
+      apply hcore
+      intro k'
+      simp only [updF]
+      split
+      · rename_i hk; subst hk
+        exact knowK_weaken a _ (m.st k') k' (hK.st k') (hstc k')
+      · rename_i hk
+        -- only the key of the reference can be dismissed
+        have hsame : (specRelease a f r).st k' = a.st k' := by
+          rcases rel_cases a f r with h | ⟨k0, hk0, ⟨h, _⟩ | ⟨h, hz⟩⟩
+          · rw [h]
+          · rw [h]
+          · have hkk : k0 = k := (hK.rkey r k hrk).2 k0 hk0
+            rw [h]; simp [dismiss, upd, hkk, hk]
+        exact knowK_other a _ _ k' hsame (hK.st k')
+  · refine ⟨_, rfl, ?_, rfl⟩
+    apply hcore
+    intro k'
+    exact knowK_weaken a _ (m.st k') k' (hK.st k') (hstc k')
 
 end UtilModel.Keyed
